@@ -19,6 +19,8 @@ pub enum T {
     P(&'static str, Box<T>),
     B(&'static str, Box<T>, Box<T>),
     Q(Box<T>, Box<T>, Box<T>),
+    /// redundant parentheses
+    G(Box<T>),
 }
 
 pub const ARITH_OPS: &[&str] = &["*", "/", "%", "+", "-", "<<", ">>", "<", "<=", ">", ">=", "==", "!=", "&", "^", "|"];
@@ -26,7 +28,7 @@ pub const LOGIC_OPS: &[&str] = &["&&", "||"];
 pub const ASSIGN_OPS: &[&str] = &["=", "*=", "/=", "%=", "+=", "-=", "<<=", ">>=", "&=", "^=", "|="];
 pub const PREFIX_OPS: &[&str] = &["+", "-", "~", "!", "++", "--"];
 pub const POSTFIX_OPS: &[&str] = &["++", "--"];
-const VARS: &[&str] = &["x", "y", "z", "w"];
+const VARS: &[&str] = &["x", "y", "z", "w", "\u{e9}t\u{e9}_1"];
 
 fn bin_prec(op: &str) -> u8 {
     match op {
@@ -46,7 +48,7 @@ fn bin_prec(op: &str) -> u8 {
 
 fn prec(t: &T) -> u8 {
     match t {
-        T::C(..) | T::V(_) => 15,
+        T::C(..) | T::V(_) | T::G(_) => 15,
         T::P(..) => 14,
         T::U(..) => 13,
         T::B(op, ..) => bin_prec(op),
@@ -77,6 +79,11 @@ fn toks(t: &T, out: &mut Vec<String>) {
     match t {
         T::C(v, r) => out.push(const_text(*v, *r)),
         T::V(n) => out.push(n.clone()),
+        T::G(a) => {
+            out.push("(".into());
+            toks(a, out);
+            out.push(")".into());
+        }
         T::U(op, a) => {
             out.push(op.to_string());
             wrap(a, 13, out);
@@ -111,16 +118,29 @@ fn is_operator_tok(t: &str) -> bool {
     t == "?" || t == ":" || PREFIX_OPS.contains(&t) || ARITH_OPS.contains(&t) || LOGIC_OPS.contains(&t) || ASSIGN_OPS.contains(&t)
 }
 
-/// mode "s": one space between tokens; "t": spaces only between adjacent operators
+/// mode "s": one space between tokens; "t": spaces only between adjacent
+/// operators; "w": tabs, newlines and runs of blanks (Arith.tla JoinFrom)
 pub fn text(t: &T, mode: &str) -> String {
+    const WS: [&str; 4] = ["\t", "\n", "  ", " \t "];
     let mut ts = vec![];
     toks(t, &mut ts);
     let mut s = String::new();
+    if mode == "w" {
+        s.push_str(" \t");
+    }
     for (i, tok) in ts.iter().enumerate() {
-        if i > 0 && (mode == "s" || (is_operator_tok(&ts[i - 1]) && is_operator_tok(tok))) {
-            s.push(' ');
+        if i > 0 {
+            if mode == "w" {
+                // 1-based position of this token is i + 1
+                s.push_str(WS[(i + 1) % 4]);
+            } else if mode == "s" || (is_operator_tok(&ts[i - 1]) && is_operator_tok(tok)) {
+                s.push(' ');
+            }
         }
         s.push_str(tok);
+    }
+    if mode == "w" {
+        s.push_str("\n ");
     }
     s
 }
@@ -130,7 +150,7 @@ pub fn names(t: &T) -> Vec<String> {
         match t {
             T::C(..) => {}
             T::V(n) => out.push(n.clone()),
-            T::U(_, a) | T::P(_, a) => go(a, out),
+            T::U(_, a) | T::P(_, a) | T::G(a) => go(a, out),
             T::B(_, l, r) => {
                 go(l, out);
                 go(r, out);
@@ -153,6 +173,7 @@ pub fn to_json(t: &T) -> Value {
     match t {
         T::C(v, r) => json!({"k": "c", "v": crate::num_json(*v), "r": r.to_string()}),
         T::V(n) => json!({"k": "v", "n": n}),
+        T::G(a) => json!({"k": "g", "a": to_json(a)}),
         T::U(op, a) => json!({"k": "u", "op": op, "a": to_json(a)}),
         T::P(op, a) => json!({"k": "p", "op": op, "a": to_json(a)}),
         T::B(op, l, r) => json!({"k": "b", "op": op, "l": to_json(l), "r": to_json(r)}),
@@ -214,6 +235,10 @@ pub fn random_tree(rng: &mut StdRng, depth: usize) -> T {
         let d = if rng.gen_bool(0.6) { depth - 1 } else { rng.gen_range(0..depth) };
         random_tree(rng, d)
     };
+    if rng.gen_bool(0.06) {
+        let inner = if rng.gen_bool(0.5) { var(rng) } else { sub(rng) };
+        return T::G(Box::new(inner));
+    }
     match rng.gen_range(0..100) {
         0..=54 => {
             let op = ARITH_OPS.choose(rng).unwrap();
